@@ -332,6 +332,8 @@ class Executor:
                     break
                 if t.kind == "switch":
                     v = self.read(st, t.args["op"])
+                    if v[0] == "opaque" and getattr(self, "trust_unreachable", False):
+                        v = I(self.fresh_int("switch"))  # lenient executor: an arbitrary scrutinee
                     succ = []
                     if v[0] == "bool":
                         cases = [(k, (v[1] if k else z3.Not(v[1]))) for k, _ in t.args["arms"]]
